@@ -1,6 +1,7 @@
 import McpModel.Base.Proto
 import McpModel.TypedTool.Monitor
 import McpModel.TypedTool.HandlerSet
+import McpModel.TypedTool.Refusal
 /-!
 Driver for E12 TypedTool (C16).
 
@@ -540,6 +541,12 @@ def engine : Engine MState where
       match parseToolOp rest with
       | none => (d, { model := "bad-op" })
       | some t =>
+        -- Server.AddTool refuses a tool whose input schema is not object-rooted, after toolForErr has run
+        if refusedByAddTool d t.ev then
+          if impl.startsWith "ok" then
+            (d.regRefused t.ev, { model := "addtool-error", violated := some "C16: registration: AddTool accepted a typed tool whose input schema does not have root type \"object\" (tools/call arguments are an object; Server.AddTool refuses every other input schema)" })
+          else (d.regRefused t.ev, { model := "addtool-error" })
+        else
         let expected := s!"ok pi={t.ownI} po={t.ownO}"
         match d.regTool t.ev (parseToolObs impl) with
         | (d', .addErr) => (d', { model := "addtool-error" })
